@@ -33,6 +33,7 @@ type tstate struct {
 	cursor int
 	stale  bool // a When object from an earlier Return survives an Apply (finding C12/stale-when)
 	orphan bool // mocked through a builder that has been dropped since
+	mixed  bool // mocked by name over a mock made through Func: two independent mocker objects own the target until the reset
 }
 
 func argsFor(fn *corpus.Fn, codes []int64) []reflect.Value {
@@ -128,13 +129,34 @@ func runHist(ci interface{}, s *vkit.Stats) (err error) {
 		}
 		switch op.K {
 		case "apply":
+			if t.mixed {
+				continue
+			}
 			t.rec = &corpus.Rec{}
 			b.Func(fn.Fn).Apply(fn.MkRepl(t.rec))
 			if t.kind == "ret" {
 				t.stale = true
 			}
 			t.kind = "repl"
+		case "applyname":
+			// the same function addressed by its name (another mocker object than Func's); applied over whatever is live: from
+			// here on calls run this callback. (Further instructions through the Func handle would go to a mocker that does not
+			// know it was superseded - two owners, which no property describes - so they are not generated until the reset.)
+			if t.orphan {
+				continue
+			}
+			t.mixed = true
+			t.rec = &corpus.Rec{}
+			b.Pkg(corpus.PkgPath).ExportFunc(fn.Name).Apply(fn.MkRepl(t.rec))
+			if t.kind == "ret" {
+				t.stale = true
+			}
+			t.kind = "repl"
+			s.Class("applied-by-name")
 		case "applymf":
+			if t.mixed {
+				continue
+			}
 			rec := &corpus.Rec{}
 			t.rec = rec
 			cb := reflect.MakeFunc(fn.Type, func(args []reflect.Value) []reflect.Value {
@@ -148,6 +170,9 @@ func runHist(ci interface{}, s *vkit.Stats) (err error) {
 			}
 			t.kind = "mf"
 		case "ret":
+			if t.mixed {
+				continue
+			}
 			if t.stale && vkit.KnownOpen("stale-when-after-apply") {
 				s.Exclude("return-after-apply-on-a-stubbed-target(known finding C12)")
 				continue
@@ -308,7 +333,7 @@ func runHist(ci interface{}, s *vkit.Stats) (err error) {
 	return nil
 }
 
-var opGen = vkit.OpGen([]string{"apply", "applymf", "ret", "call", "gc", "churn", "reset", "dropgc"}, []int{4, 2, 3, 12, 1, 1, 1, 1}, 6)
+var opGen = vkit.OpGen([]string{"apply", "applymf", "ret", "call", "gc", "churn", "reset", "dropgc", "applyname"}, []int{4, 2, 3, 12, 1, 1, 1, 1, 2}, 6)
 
 func TestVerifC01(t *testing.T) {
 	quiet()
